@@ -125,6 +125,12 @@ class ShapelyPolygon(Domain):
         if not d:
             # if a number of points if specified we have to make sure
             # to sample the right amount of points
+            scaled_n = n
+            while len(points) > n:
+                # too many grid points fell into the polygon: use a coarser grid
+                scaled_n = int(scaled_n * n / len(points))
+                points = self._create_points_in_bounding_box(scaled_n, device)
+                points = self._delete_outside(points)
             points = self._grid_enough_points(n, points, device)
         return Points(points, self.space)
 
